@@ -64,6 +64,7 @@ def generate(seed: int, run: int, tier: str) -> dict:
     if not any(w_create[k] for k in ("symbol", "indexed", "quantity", "function")):
         w_create["symbol"] = 6
     p_perturb = rng.choice([0.0, 0.1, 0.25, 0.4])
+    p_thread = rng.choice([0.0, 0.0, 0.15, 0.5])
     name_pool = rng.sample(NAMES, rng.choice([2, 3, 5, len(NAMES)]))
     ops = []
     for _ in range(n):
@@ -92,6 +93,9 @@ def generate(seed: int, run: int, tier: str) -> dict:
                 op["assume"] = rng.choice(ASSUME)
             if kind == "function":
                 op["nargs"] = rng.choice([None, 1, 2])
+                if op["nargs"] and rng.random() < 0.5:
+                    # declared arguments are earlier library objects (symbols or unapplied functions)
+                    op["arg_refs"] = [rng.randrange(100) for _ in range(op["nargs"])]
         elif kind == "quantity":
             op.update(value=rng.choice([1, 2, 3, 5, -4, 0.5, 1000]), unit=rng.choice(UNITS), name=rng.choice(name_pool), latex=rng.choice(LATEX), prefix=rng.choice([None, None, "kilo", "milli"]))
         elif kind == "coordsys":
@@ -104,6 +108,8 @@ def generate(seed: int, run: int, tier: str) -> dict:
                 op["assume"] = rng.choice([None, None] + ASSUME[1:])
             if kind == "clone_function":
                 op["nargs"] = rng.choice([None, 1])
+        if p_thread and rng.random() < p_thread:
+            op["thread"] = True  # this creation happens in another (joined) thread of the process
         ops.append(op)
     env = {"hashseed": rng.choice([0, 1, 7]), "cache": rng.choice([1000, 1000, 20])}
     return {"prop": PROP, "seed": seed, "run": run, "env": env, "timeout": 180, "ops": ops, "final": True}
@@ -156,6 +162,11 @@ class Model:
         self.recs: list[dict] = []
 
     def add(self, kind, obj, display, latex, dim, assumptions=None, scale=None, src=None, defaulted=False, extra=None):
+        if kind != "coordsys":
+            # display names that legitimately look like generated names (chosen so, or defaulted)
+            self.allowed_tokens = getattr(self, "allowed_tokens", set())
+            for m in INTERNAL.finditer(str(getattr(obj, "display_name", ""))):
+                self.allowed_tokens.add(m.group(0))
         self.recs.append({"kind": kind, "obj": obj, "display": display, "latex": latex, "dim": dim, "assume": assumptions, "scale": scale, "src": src, "defaulted": defaulted, "extra": extra})
 
     def symbol_like(self):
@@ -330,7 +341,7 @@ def _final_checks(model: Model) -> list[str]:
                 if back != 0 and not (back.is_number and abs(sp.N(back)) <= 1e-9 * max(1, abs(sp.N(total)))):
                     raise Violation("independence", "solve:symbol", f"solution for {r['display']!r} does not satisfy the equation (residual {back})")
     # I5 printing
-    allowed = set()
+    allowed = set(getattr(model, "allowed_tokens", ()))  # incl. objects the model has since dropped
     for r in model.recs:
         if r["kind"] == "coordsys":
             continue
@@ -373,6 +384,39 @@ def _final_checks(model: Model) -> list[str]:
                     raise Violation("print", f"{printer_name}:{shape_name}:{r['kind']}", f"{printer_name} of a {shape_name} {r['kind']} with display name {d!r} shows generated internal name {bad[0]!r}: {text[:200]!r}")
                 if r["kind"] != "quantity" and d not in text:
                     raise Violation("print", f"{printer_name}:{shape_name}:{r['kind']}", f"{printer_name} of a {shape_name} {r['kind']} does not show its display name {d!r}: {text[:200]!r}")
+    # printing after the expression was rebuilt by SymPy (doit / simplify / expand / subs of an index)
+    idx_i, idx_k = sp.Idx("i"), sp.Idx("k")
+    rebuilt_terms = []
+    for r, t, p_, _v in terms:
+        if r["kind"] == "indexed":
+            rebuilt_terms.append((r, p_ * r["obj"][idx_i]))
+        elif r["kind"] in ("symbol", "function", "quantity") and len(rebuilt_terms) < 8:
+            rebuilt_terms.append((r, p_ * t))
+    rebuilt_terms = rebuilt_terms[:10]
+    if any(r["kind"] == "indexed" for r, _ in rebuilt_terms):
+        E2 = sp.Add(*[t for _, t in rebuilt_terms])
+        for how, fn in (("doit", lambda e: e.doit()), ("simplify", sp.simplify), ("expand", lambda e: sp.expand(e * 2)), ("subs-index", lambda e: e.subs(idx_i, idx_k))):
+            try:
+                e3 = fn(E2)
+            except Exception:  # pylint: disable=broad-except
+                continue
+            for printer_name, printer in (("print_expression", print_expression), ("code_str", code_str)):
+                text = " ;; ".join(printer(a) for a in sp.Add.make_args(e3))
+                bad = [m.group(0) for m in INTERNAL.finditer(text) if m.group(0) not in allowed and not m.group(0).startswith("SYS")]
+                if bad:
+                    raise Violation("print", f"{printer_name}:after-{how}", f"{printer_name} shows generated internal name {bad[0]!r} after {how}() of an expression whose objects all have display names: {text[:240]!r}")
+    for r in model.recs:
+        if r["kind"] == "function" and (r.get("extra") or {}).get("declared"):
+            d = str(r["obj"].display_name)
+            try:
+                text = code_str(r["obj"])
+            except Exception as e:  # pylint: disable=broad-except
+                raise Violation("print", "code_str:bare:function", f"code_str of an unapplied function with declared arguments raised {type(e).__name__}: {str(e)[:120]}") from None
+            bad = [m.group(0) for m in INTERNAL.finditer(text) if m.group(0) not in allowed]
+            if bad:
+                raise Violation("print", "code_str:bare:function", f"code_str of the unapplied function {d!r} shows generated internal name {bad[0]!r}: {text[:200]!r}")
+            if d not in text:
+                raise Violation("print", "code_str:bare:function", f"code_str of the unapplied function {d!r} does not show its display name: {text[:200]!r}")
     notes.append(f"terms={len(terms)} solved={solved}")
     return notes
 
@@ -475,8 +519,13 @@ def _apply(op: dict, model: Model, state: dict):  # pylint: disable=too-many-bra
     elif k == "function":
         nargs = op.get("nargs")
         args = None if nargs is None else [sp.Symbol(f"arg{i}") for i in range(nargs)]
+        declared = False
+        pool_ = [r for r in model.recs if r["kind"] in ("symbol", "function")]
+        if args is not None and op.get("arg_refs") and pool_:
+            args = [pool_[i % len(pool_)]["obj"] for i in op["arg_refs"][:nargs]]
+            declared = True
         o = sx.Function(name, args, _dim(op["dim"]), display_latex=latex)
-        model.add("function", o, name, latex, _dim(op["dim"]), None, defaulted=not name, extra={"default_display": lambda o: str(o.name), "nargs": nargs})
+        model.add("function", o, name, latex, _dim(op["dim"]), None, defaulted=not name, extra={"default_display": lambda o: str(o.name), "nargs": nargs, "declared": declared})
     elif k == "vecsymbol":
         from symplyphysics.core.experimental.vectors import VectorSymbol  # pylint: disable=import-outside-toplevel
         o = VectorSymbol(name, _dim(op["dim"]), display_latex=latex)
@@ -556,7 +605,25 @@ def child_run(job: dict) -> dict:
         outcome = None
         try:
             try:
-                outcome = _apply(op, model, state)
+                if op.get("thread"):
+                    import threading  # pylint: disable=import-outside-toplevel
+                    box: dict = {}
+
+                    def work(op=op):
+                        try:
+                            box["out"] = _apply(op, model, state)
+                        except BaseException as ex:  # pylint: disable=broad-except
+                            box["exc"] = ex
+
+                    th = threading.Thread(target=work)
+                    th.start()
+                    th.join()
+                    state["faults"]["other_thread"] = state["faults"].get("other_thread", 0) + 1
+                    if "exc" in box:
+                        raise box["exc"]
+                    outcome = box["out"]
+                else:
+                    outcome = _apply(op, model, state)
             except Violation:
                 raise
             except RecursionError:
